@@ -96,6 +96,13 @@ def family(rng, alpha, n, L, shape, psub, pindel):
         if rng.random() < 0.3:
             rng.shuffle(out)
         return out
+    if shape == 'outlier':
+        # n-1 near-identical sequences and one (or two) unrelated ones: k-means splits "outlier | rest", a side with a
+        # single member, UPGMA leaf groups of size 1
+        k = rng.choice([1, 1, 2])
+        out = [mutate(rng, anc, alpha, psub * 0.05, 0.0) for _ in range(n - k)] + [rand_seq(rng, alpha, max(1, int(len(anc) * rng.uniform(0.7, 1.4)))) for _ in range(k)]
+        rng.shuffle(out)
+        return out
     if shape == 'broom':
         # a deep, narrow UPGMA tree (< 100 sequences): two tight pairs next to the ancestor, then a handle of items
         # at slowly growing distance, each joined on top of everything closer; some items are PAIRS, so that nodes
@@ -198,7 +205,7 @@ def gen_workload(rng, profile=None, kinds=('dna', 'rna', 'protein'), weights=Non
         n, L = rng.randint(10, 60), rng.randint(20, 260)
     elif profile == 'kmeans':
         n, L = rng.randint(100, 240), rng.randint(12, 70)
-        shape = rng.choice(['clusters', 'balanced', 'caterpillar', 'star', 'twoclusters', 'twoclusters', 'haplotypes', 'haplotypes'])
+        shape = rng.choice(['clusters', 'balanced', 'caterpillar', 'star', 'twoclusters', 'twoclusters', 'haplotypes', 'haplotypes', 'outlier', 'outlier'])
     elif profile == 'hirsch':
         n, L = rng.randint(2, 5), rng.randint(500, 1500)
         psub = rng.choice([0.02, 0.1, 0.25]); pindel = rng.choice([0.0, 0.01, 0.03])
